@@ -85,11 +85,13 @@ def run(ctx):
                             pass
                         trace = exe + f"_{fi}.ndjson"
                         what = f"workload {meta} backend={backend} gc={gc or 'default'} flags='{flags}'"
-                        r = progs.run_prog(exe, flags=flags, env={"DORA_VERIF_TRACE": trace}, timeout=120)
+                        r = progs.run_prog(exe, flags=flags, env={"DORA_VERIF_TRACE": trace}, timeout=120, deadlock_s=8)
                         if r.timed_out:
-                            r = progs.run_prog(exe, flags=flags, env={"DORA_VERIF_TRACE": trace}, timeout=300)
+                            first = "all threads asleep without cpu use for 8 s" if r.deadlock else "no completion within 120 s"
+                            r = progs.run_prog(exe, flags=flags, env={"DORA_VERIF_TRACE": trace}, timeout=300, deadlock_s=20)
                             if r.timed_out:
-                                ctx.violation(f"{what}: hang (lost wake-up / deadlock): no completion within 300 s, confirmed by re-run",
+                                ctx.violation(f"{what}: hang (lost wake-up / deadlock): {first}; re-run: " +
+                                              ("all threads asleep without cpu use for 20 s" if r.deadlock else "no completion within 300 s"),
                                               {"source": src_text, "flags": flags, "backend": backend, "gc": gc}, key="hang:" + meta["kind"])
                                 continue
                         nrun += 1
